@@ -109,6 +109,15 @@ def gen_specs(run):
                 c["r"] = c["r"][:T - drop]
         variant("witness T-1, commitments made from the short openings", False, lambda x: t_minus_consistent(x, 1))
         variant("witness of degree 1, commitments made from the short openings", False, lambda x: t_minus_consistent(x, T - 1) if T >= 3 else False)
+        # a witness object of the right degree whose openings were REPLACED in place afterwards (public field) by ones carrying more blinding factors
+        # than the generators support / than the object's recorded degree: the prover must refuse it like any other invalid witness
+        if T < 6:
+            xw = copy.deepcopy(base)
+            xw["witness"] = copy.deepcopy(xw["commit"])
+            for o in xw["witness"]:
+                o["r"] = o["r"] + [gen.hx(gen.rscalar(rng))]
+            xw["witness_template"] = copy.deepcopy(xw["commit"])
+            cases.append(("openings with T+1 blinding factors written into a witness object of degree T", xw, False))
         # openings swapped between positions
         def swap(x):
             if m < 2 or x["witness"][0] == x["witness"][1]:
